@@ -497,8 +497,13 @@ func (d *dealer) syncRegister(callee *wamp.Session, msg *wamp.Register, match, i
 		// invocation policy allows another.
 
 		// Found an existing registration that has an invocation strategy that
-		// only allows a single callee on the given registration.
-		if reg.policy == "" || reg.policy == wamp.InvokeSingle {
+		// only allows a single callee on the given registration. Only the
+		// known shared invocation policies allow more than one callee; a
+		// registration made with any other policy value is treated as single,
+		// since a call to it could not choose between several callees.
+		switch reg.policy {
+		case wamp.InvokeFirst, wamp.InvokeLast, wamp.InvokeRoundRobin, wamp.InvokeRandom:
+		default:
 			d.log.Println("REGISTER for already registered procedure",
 				msg.Procedure, "from callee", callee)
 			d.trySend(callee, &wamp.Error{
